@@ -32,6 +32,30 @@ def h(x):
 big = [i * i for i in range(200)]
 '''
 
+DEEP = '''
+def nest(n, leaf):
+    x = [leaf]
+    for _ in range(n):
+        x = [x]
+    return x
+a = nest(90, 1)
+b = nest(90, 1)
+c = nest(90, 2)
+t = (a, (b, (c,)))
+cyc = [1]
+cyc.append(cyc)
+def depth(n):
+    return 0 if n == 0 else 1 + depth(n - 1)
+'''
+
+DEEP_USE = '''
+load("lib0.star", "a", "b", "c", "t", "cyc", "depth")
+emit([[a == b, a == c, a < c, [a] == [b], {"k": a} == {"k": b}, c in [a, b, c], {t: 1}.get((a, (b, (c,))))] for _ in range(40)][-1])
+emit(len(sorted([c, a, b, c, a])))
+emit([len(repr(a)), repr(cyc), str(cyc), len(json.encode(b))])
+emit(depth(45))
+'''
+
 
 def rounds():
     out = []
@@ -51,4 +75,17 @@ def rounds():
     # 3. two threads only (the smallest sharing round)
     out.append({"id": "corpus:two-threads", "seed": 13, "libs": [{"name": "lib0.star", "src": LIB}],
                 "threads": [{"ops": ops2[:4]} for _ in range(2)], "seq_first": True, "share_globals": True, "stack_mb": 16, "jitter_us": 20})
+    # 4. per-thread state of the library on shared frozen values: 8 threads inside 90-deep comparisons / repr / json / recursion at
+    #    the same time (each alone stays below the limits: 200 comparison levels, 50 call frames); sequential before and after
+    out.append({"id": "corpus:deep-values-on-8-threads", "seed": 14, "libs": [{"name": "lib0.star", "src": DEEP}],
+                "threads": [{"ops": [{"op": "eval", "src": DEEP_USE, "gc": 0} for _ in range(6)]} for _ in range(8)],
+                "seq_first": True, "recheck": True, "share_globals": True, "stack_mb": 16, "jitter_us": 1, "family": "state"})
+    # 5. churn: tiny frozen heaps built back to back on one thread (all carved out of the chunk of a big first heap), read and dropped
+    #    on three other threads; and three producers without a big heap feeding two consumers
+    out.append({"id": "corpus:churn-one-producer", "kind": "churn", "seed": 15, "style": "tiny-str", "shapes": ["str"], "producers": 1,
+                "consumers": 3, "iters": 100000, "max_ms": 8000, "big_first": 300000, "chan_cap": 2, "hold": 0, "ev_n": 12, "route": "rr",
+                "limit_s": 120, "threads": []})
+    out.append({"id": "corpus:churn-three-producers", "kind": "churn", "seed": 16, "style": "tiny-mixed",
+                "shapes": ["str", "tuple", "list", "big", "nested"], "producers": 3, "consumers": 2, "iters": 100000, "max_ms": 8000,
+                "big_first": 0, "chan_cap": 2, "hold": 1, "ev_n": 12, "route": "block", "limit_s": 120, "threads": []})
     return out
